@@ -73,9 +73,9 @@ class Monitor:
                 return
             r.fired = True
             visit = sum(1 for e in r.events if e == (code.co_name, line))
-            r.origins.append({'func': code.co_name, 'line': line, 'visit': visit, 'exc': r.exc_name, 'at': idx,
-                              'injected': True})
             exc = EXC[r.exc_name]('injected at line event %d (%s:%d)' % (idx, code.co_name, line))
+            r.origins.append({'func': code.co_name, 'line': line, 'visit': visit, 'exc': r.exc_name, 'at': idx,
+                              'injected': True, 'exc_id': id(exc)})
             r.seen_exc[id(exc)] = exc
             raise exc
 
@@ -84,6 +84,15 @@ class Monitor:
         if r is None or id(code) not in self.codes:
             return
         if id(exc) in r.seen_exc:
+            # the exception propagates into a caller frame (RAISE fires once per monitored frame it unwinds through): remember
+            # the call sites, so that a failure inside a callee the IR does not contain (the real readspec) is attributed to the
+            # fault point of the call statement
+            if r.origins and r.origins[-1].get('exc_id') == id(exc) and code.co_name != r.origins[-1]['func']:
+                ln = None
+                for s, e, l in code.co_lines():
+                    if s <= offset < e:
+                        ln = l
+                r.origins[-1].setdefault('via', []).append({'func': code.co_name, 'line': ln})
             return
         r.seen_exc[id(exc)] = exc
         line = None
@@ -92,7 +101,7 @@ class Monitor:
                 line = l
         visit = sum(1 for ev in r.events if ev == (code.co_name, line))
         r.origins.append({'func': code.co_name, 'line': line, 'visit': max(visit, 1), 'exc': type(exc).__name__,
-                          'at': len(r.events) - 1, 'injected': False})
+                          'at': len(r.events) - 1, 'injected': False, 'exc_id': id(exc)})
 
 
 MON = Monitor()
@@ -205,7 +214,8 @@ EIGENOBJ 3588 55184 208 0.78 300.0
 
 def template_prepare(tmp, variant):
     """write the parameter file (and the dump file when the variant wants one) into tmp"""
-    d = os.path.join(tmp, 'ti-%s-%s-%d' % (variant['object'], variant['method'], int(bool(variant.get('dump')))))
+    d = os.path.join(tmp, 'ti-%s-%s-%d%s' % (variant['object'], variant['method'], int(bool(variant.get('dump'))),
+                                             '-real' if variant.get('real_readspec') else ''))
     os.makedirs(d, exist_ok=True)
     par = os.path.join(d, 'in.par')
     with open(par, 'w') as f:
@@ -213,6 +223,11 @@ def template_prepare(tmp, variant):
                           run2d=variant.get('run2d', 'v5_7_0'), run1d=variant.get('run1d', 'v5_7_2'))
         # optional keywords the source reads (harness: c20.optional_keywords): given a value, before the table
         extra = ''.join('%s /optional/%s\n' % (k, k) for k in variant.get('extra_keys', []))
+        if variant.get('real_readspec'):
+            # the spectra of the synthetic survey tree (real_tree) instead of the fixed three of the stubbed reading stage
+            head = text[:text.index('EIGENOBJ 3587')]
+            text = head + ''.join('EIGENOBJ %d %d %d 0.%d %d.0\n' % (p_, m_, f_, 35 + k, 100 * (k + 1))
+                                  for k, (p_, m_, f_) in enumerate(REAL_ROWS))
         f.write(extra + text)
     dump = os.path.join(d, 'dump.pkl')
     if os.path.exists(dump) and not variant.get('keep_dump'):
@@ -267,7 +282,13 @@ def template_call(run, variant, tmp):
         P(image_mod, 'djs_maskinterp', side_effect=stub(run, 'djs_maskinterp', fn=lambda x, *a, **k: x))
         P(math_mod, 'djs_median', side_effect=stub(run, 'djs_median', fn=lambda x, *a, **k: x))
         P(spec1d, 'log', new=mock.MagicMock())
-        P(spec1d, 'readspec', side_effect=stub(run, 'readspec', spplate))
+        if variant.get('real_readspec'):
+            # the REAL reading stage on a synthetic survey tree: readspec / spec_path run unstubbed, only the file
+            # opener is counted as a collaborator call (so that the k-th fits.open can be made to fail)
+            import astropy.io.fits as real_fits
+            fits.open.side_effect = stub(run, 'fits.open', fn=real_fits.open)
+        else:
+            P(spec1d, 'readspec', side_effect=stub(run, 'readspec', spplate))
         P(spec1d, 'skymask', side_effect=stub(run, 'skymask', fn=lambda iv, a, o, *r, **k: iv.copy()))
         P(spec1d, 'wavevector', side_effect=stub(run, 'wavevector', loglam))
         P(spec1d, 'preprocess_spectra',
@@ -289,6 +310,32 @@ def template_call(run, variant, tmp):
             os.chdir(cwd)
 
 
+# ---------------------------------------------------------------- synthetic survey tree for the real readspec
+REAL_ROWS = [(3587, 55182, 2), (3587, 55182, 4), (3588, 55184, 3)]      # (plate, mjd, fibre) of the parameter file
+REAL_FUNCS = ('readspec', 'spec_path', 'latest_mjd', 'number_of_fibers', 'spec_append')
+
+
+def real_tree(tmp, conf):
+    """$BOSS_SPECTRO_REDUX/<run2d>/<plate>/spPlate-PPPP-MMMMM.fits (+ spZbest, + photoPlate when conf['photo']) written with the
+    tree builder of the C16 harness (one call per plate directory); returns the environment of the configuration:
+    conf = {'photo': bool, 'redux': bool, 'match': bool, 'resolve': bool} (is the variable set on entry?)"""
+    from harness.props import c16
+    top = os.path.join(tmp, 'survey-%d' % int(bool(conf.get('photo'))))
+    redux = os.path.join(top, 'redux')
+    if not os.path.isdir(redux):
+        for no, (plate, mjd) in enumerate(sorted({(p, m) for p, m, _ in REAL_ROWS})):
+            f = {'plate': plate, 'mjd': mjd, 'no': no, 'nfib': 5 + no, 'npix': 6, 'c0': 3.5, 'c1': 1.0e-4,
+                 'zbest': True, 'photo': bool(conf.get('photo')), 'nper': 0}
+            c16.write_tree({'kind': 'full' if conf.get('photo') else 'bare', 'files': [f], 'platelist': None},
+                           os.path.join(redux, 'v5_7_0', '%04d' % plate))
+        os.makedirs(os.path.join(top, 'match'), exist_ok=True)
+        os.makedirs(os.path.join(top, 'resolve', '2010-05-23'), exist_ok=True)
+    return {'BOSS_SPECTRO_REDUX': redux if conf.get('redux', True) else None,
+            'SPECTRO_REDUX': None,
+            'SPECTRO_MATCH': os.path.join(top, 'match') if conf.get('match') else None,
+            'PHOTO_RESOLVE': os.path.join(top, 'resolve', '2010-05-23') if conf.get('resolve') else None}
+
+
 # ---------------------------------------------------------------- one case
 def apply_env(state):
     """put the variables of `state` ({name: value or None}) into that state"""
@@ -307,6 +354,8 @@ def run_case(func, variant, init, inject, tmp, forbidden=frozenset()):
               call_k=inject['k'] if inject and inject['mode'] == 'call' else None,
               exc_name=(inject or {}).get('exc', 'InjectedFault'), forbidden=forbidden)
     saved = dict(os.environ)
+    if func == 'template_input' and variant.get('real_readspec'):
+        init = dict(init, **real_tree(tmp, variant['real_readspec']))
     try:
         apply_env(init)
         before = dict(os.environ)
